@@ -241,6 +241,10 @@ pub fn glob_match(pattern: &str, text: &str) -> bool {
 pub fn load_known_findings() -> Vec<KnownFinding> {
 	let p = Path::new(VERIF_DIR).join("known_findings.json");
 	let mut out = vec![];
+	// debugging aid: show listed findings as ordinary violations
+	if std::env::var("VERIF_IGNORE_KNOWN").is_ok() {
+		return out;
+	}
 	if let Ok(s) = std::fs::read_to_string(&p) {
 		if let Ok(v) = serde_json::from_str::<Value>(&s) {
 			if let Some(a) = v["findings"].as_array() {
